@@ -276,6 +276,15 @@ class Session:
             self.fail("client CONNECTED without a session key", "ClientServerConnection")
         if key is not None and len(key) != 16:
             self.fail("session key is not 16 bytes", "ClientServerConnection")
+        if pre["key"] is not None and d is not None and \
+                (key != pre["key"] or conn.token != pre.get("token") or (pre["status"] == 2 and conn.status.value != 2)):
+            # a client that already holds a session key changed key / token / left CONNECTED while
+            # processing a datagram: only a datagram sealed under the key it held may do that
+            sealed, _ = self.parse_msgs(d, pre["key"])
+            if not sealed:
+                self.fail("client holding a session key changed key/token/status on a datagram not sealed under that key",
+                          "Packet.from_bytes / ClientServerConnection._recvServerHello",
+                          rekeyed=key != pre["key"], status=conn.status.value)
         if key != pre["key"] or (conn.status.value == 2 and pre["status"] != 2):
             # the key / CONNECTED was adopted in this event: it must come from a hello in d that verifies
             ok = False
